@@ -1,1 +1,93 @@
-From Ase Require Import Model.Dump.
+(* C06: cel images in the three colour formats; absent and linked cels. *)
+From Ase Require Import Base.Prelude.
+From Ase Require Import Model.Render.
+From Ase Require Import Proofs.ImageLemmas.
+From Ase Require Import Proofs.RenderFrame.
+From Ase Require Import Spec.Compose.
+From Ase Require Import Proofs.RenderValid.
+
+(* an absent cel reports empty, offset (0,0), and renders fully transparent *)
+Theorem C06_empty : forall f fr l, cel_lookup f fr l = Ok None ->
+  cel_is_empty f (fr, l) = Ok true /\ cel_top_left f (fr, l) = Ok (0, 0) /\
+  cel_image f (fr, l) = Ok (img_new (f_width f) (f_height f)) /\
+  forall x y, img_get (img_new (f_width f) (f_height f)) x y = transparent.
+Proof. exact cel_image_empty. Qed.
+Print Assumptions C06_empty.
+
+(* a linked cel renders exactly like the cel of the same layer in the frame it links to *)
+Theorem C06_linked : forall f fr l c target c',
+  cel_lookup f fr l = Ok (Some c) -> c_content c = CLinked target -> cc_layer (c_data c) = l ->
+  cel_lookup f target l = Ok (Some c') -> is_linked c' = false -> cc_layer (c_data c') = l ->
+  cel_image f (fr, l) = cel_image f (target, l).
+Proof. exact cel_image_linked. Qed.
+Print Assumptions C06_linked.
+
+Theorem C06_linked_absent : forall f fr l c target lay,
+  cel_lookup f fr l = Ok (Some c) -> c_content c = CLinked target -> cc_layer (c_data c) = l ->
+  layer_get f l = Ok lay -> cel_lookup f target l = Ok None ->
+  cel_image f (fr, l) = cel_image f (target, l).
+Proof. exact cel_image_linked_absent. Qed.
+Print Assumptions C06_linked_absent.
+
+(* every pixel of a cel image: canvas-sized; inside the cel the stored colour (cel_px) with its
+   alpha scaled by mul_un8 (layer opacity) (cel opacity); transparent elsewhere *)
+Theorem C06_cel_pixels : forall f fr l img, render_wf f -> cel_image f (fr, l) = Ok img ->
+  iw img = f_width f /\ ih img = f_height f /\
+  forall x y, 0 <= x < f_width f -> 0 <= y < f_height f -> cel_spec_pixel f fr l x y = Some (img_get img x y).
+Proof. exact cel_image_pixels. Qed.
+Print Assumptions C06_cel_pixels.
+
+(* the colour of a stored pixel: RGBA verbatim *)
+Theorem C06_rgba : forall a i, pixels_get (PRgba a) i = aget a i.
+Proof. exact pixels_get_rgba. Qed.
+Print Assumptions C06_rgba.
+
+(* grayscale (v, a) as (v, v, v, a) *)
+Theorem C06_gray : forall a i p,
+  pixels_get (PGray a) i = Some p <-> exists v al, aget a i = Some (v, al) /\ p = (v, v, v, al).
+Proof. exact pixels_get_gray. Qed.
+Print Assumptions C06_gray.
+
+(* indexed: the palette colour, except that the transparent index is fully transparent when the
+   buffer is not flagged background *)
+Theorem C06_indexed : forall pal transp bg a i p,
+  pixels_get (PIndexed pal transp bg a) i = Some p <->
+  exists k e r g b al, aget a i = Some k /\ zfind k pal = Some e /\ pe_rgba e = (r, g, b, al) /\
+    ((k = transp /\ bg = false -> p = (r, g, b, 0)) /\ (~ (k = transp /\ bg = false) -> p = (r, g, b, al))).
+Proof. exact pixels_get_indexed. Qed.
+Print Assumptions C06_indexed.
+
+(* Pixels::clone_as_image_rgba computes exactly these colours *)
+Theorem C06_clone : forall px rgba, pixels_dense px -> clone_as_rgba px = Ok rgba ->
+  forall i, aget rgba i = pixels_get px i.
+Proof. exact clone_get. Qed.
+Print Assumptions C06_clone.
+
+(* validation keeps the cel header, builds dense buffers, and flags an indexed buffer with the
+   background flag of the cel's layer and the file's transparent index *)
+Theorem C06_validated_cel : forall layers tss pal fmt t nf nl lid c c',
+  validate_cel layers tss pal fmt t nf nl lid c = Ok c' ->
+  c_data c' = c_data c /\ cel_dense c' /\
+  forall w h p tr bg a, c_content c' = CRaw w h (PIndexed p tr bg a) ->
+    exists lay, aget layers lid = Some lay /\ bg = layer_is_background lay /\ fmt = FIndexed tr /\ pal = Some p.
+Proof. exact validate_cel_facts. Qed.
+Print Assumptions C06_validated_cel.
+
+(* the blend fact used: over the transparent pixel every mode returns the source with scaled alpha *)
+Theorem C06_over_transparent : forall mode r g b a o q,
+  blend mode transparent (r, g, b, a) o = Some q -> q = (r, g, b, mul_un8 a o).
+Proof. exact blend_transparent_inv. Qed.
+Print Assumptions C06_over_transparent.
+
+Theorem C06_over_transparent_total : forall mode r g b a o,
+  is_byte r -> is_byte g -> is_byte b -> blend mode transparent (r, g, b, a) o = Some (r, g, b, mul_un8 a o).
+Proof. exact blend_transparent_some. Qed.
+Print Assumptions C06_over_transparent_total.
+
+(* end to end: for every file that loads (from bytes), with no further hypothesis *)
+Theorem C06_cel_pixels_loaded : forall inflate bs f fr l img, Forall is_byte bs -> load inflate bs = Ok f ->
+  cel_image f (fr, l) = Ok img ->
+  iw img = f_width f /\ ih img = f_height f /\
+  forall x y, 0 <= x < f_width f -> 0 <= y < f_height f -> cel_spec_pixel f fr l x y = Some (img_get img x y).
+Proof. exact cel_image_pixels_loaded. Qed.
+Print Assumptions C06_cel_pixels_loaded.
